@@ -7,6 +7,7 @@ CONSTANTS
   MaxMerges = 1
   AllowDeleteAll = FALSE
   AllowExplicitUncommittedMerge = FALSE
+  ExplicitMergeTarget = "current"
   AllowBatch = FALSE
   AllowReopen = FALSE
   AllowPrepare = FALSE
